@@ -341,8 +341,8 @@ type content struct {
 	states []*ref.State
 }
 
-func (c *content) ntx() int            { return len(c.txs) }
-func (c *content) end() *ref.State     { return c.states[len(c.txs)] }
+func (c *content) ntx() int             { return len(c.txs) }
+func (c *content) end() *ref.State      { return c.states[len(c.txs)] }
 func (c *content) agg() *core.StateDiff { return foldDiffs(c.diffs) }
 
 func (c *content) prefix(k int) *content {
